@@ -62,6 +62,10 @@ ALPHA["L6"] = [(n, d) for n in ("x", "x ", "ctl") for d in (0.0, 1.0)]
 ALPHA["L4"] = [("x", 1.0), ("x ", 1.0), ("ctl", 1.0), ("x", 0.0)]
 # supplied mappings: a SECOND name that has a dose the first name lacks (a mapping from which (b, 2) was dropped knows the name b
 # and the dose 1, but not the dose 2)
+# both spellings of a zero dose next to each other (they are the same dose: one condition, one id)
+ALPHA["Z6"] = [(n, d) for n in ("a", "") for d in (0.0, -0.0, 1.0)]
+# names that are different strings but equal as numbers / in another order as numbers than as strings
+NUM4 = ["1", "01", "10", "9"]
 ALPHA["M4"] = [("a", 1.0), ("b", 1.0), ("b", 2.0), ("", 0.0)]
 ALPHA["M6"] = [("a", 1.0), ("a", 2.0), ("b", 1.0), ("b", 2.0), ("b", 3.0), ("", 0.0)]
 DERIVED_NAMES = ["s", "s ", " s"]
@@ -81,7 +85,8 @@ BOUNDS = {
             "arity1 rows<=2 over D12 (doses -1,-0.0,5e-324,1)",
         ],
         "treatment_encoder_direct": "all arrays of length<=3 over D12",
-        "encoder_1d_direct": "all arrays of length<=4 over 4 strings; all sub-lists of arrays of length<=3 with the superset mapping",
+        "encoder_1d_direct": "all arrays of length<=4 over 4 strings (and over the numeric look-alikes '1', '01', '10', '9'); all sub-lists of arrays of length<=3 with the superset mapping",
+        "zero_dose_spellings": "arity1 rows<=3 and arity2 1 row over {a, ''} x doses {0.0, -0.0, 1.0}; the treatment encoder directly on all arrays of length<=3 over them",
         "supplied_mapping": "S = arity1 rows<=3 over S4, arity2 2 rows over S3, arity1 3 rows over M4 (two names, the second with a dose the first lacks); every non-empty sub-list; both rejection families",
         "control_names": CONTROLS,
         "control_names_with_lookalikes": "8 (control name, look-alike drug name) pairs - regular-expression metacharacters in the control name, case variants - x all screens "
@@ -203,6 +208,12 @@ def plan(tier, seed):
                 items.append({"k": "derived", "alpha": alpha, "arity": arity, "rows": n, "control": c, "lo": lo, "hi": hi})
     for ci in range(len(CONTROL_LOOKALIKES)):
         items.append({"k": "ctlname", "pair": ci, "control": CONTROL_LOOKALIKES[ci][0]})
+    for n in (1, 2, 3):
+        screens("Z6", 1, n)
+    screens("Z6", 2, 1)
+    for length in (1, 2, 3):
+        enct("Z6", length)
+    items.append({"k": "enc1d", "names": "NUM4"})
     for n in (1, 2, 3):
         screens("A9", 1, n)
     for n in (1, 2):
@@ -975,6 +986,7 @@ def run_item(item, col, tier):
         return
     if k == "enc1d":
         first = True
+        NAMES4 = globals()["NAMES4"] if item.get("names") != "NUM4" else NUM4  # noqa: N806  (the alphabet of this item)
         for n in (1, 2, 3, 4):
             for names in itertools.product(NAMES4, repeat=n):
                 col.states += 1
